@@ -280,6 +280,10 @@ def role_table(ctx, chk, rule, q, best, worst):
                     ps = [p_ for p_ in m.params if p_ != "self"]
                     if [a_.id if isinstance(a_, ast.Name) else None for a_ in body[0].value.args] == ps and len(ps) == len(x[3]) and not x[4]:
                         return ("mcall", st, body[0].value.func.attr, x[3], ())
+            # a method looked up on its class (`PlayerOne.get_best...`) is an object, not None
+            if x[0] == "cmp" and x[1] in ("isnot", "is", "!=", "==") and x[3] == C(None) and x[2][0] == "attr" and x[2][1][0] == "v" and x[2][1][1] in ctx.prog.classes \
+                    and ctx.prog.resolve_method(x[2][1][1], x[2][2]) is not None:
+                return C(x[1] in ("isnot", "!="))
             # the spec methods return a list on every path: `is not None` of their result is settled
             if x[0] == "cmp" and x[1] in ("isnot", "is", "!=", "==") and x[3] == C(None) and x[2][0] == "mcall" and x[2][1] == st and x[2][2] in (best, worst) \
                     and cn in ctx.prog.classes and _never_none(ctx.prog.resolve_method(cn, x[2][2])):
